@@ -145,9 +145,12 @@ fn strategy(tier: Tier) -> proptest::strategy::BoxedStrategy<Facts> {
     use proptest::prelude::*;
     prop_oneof![
         // (two thirds of the ontologies carry gene / disease annotations: distances and paths must not depend on them)
-        1 => gen::facts(GenCfg::small().terms(1, max).recs(0)),
-        1 => gen::facts(GenCfg::small().terms(1, max).recs(4)),
-        1 => gen::facts(GenCfg::small().terms(2, max).recs(4).standard().with_flags(true).names(crate::gen::NameMode::Capped)),
+        16 => gen::facts(GenCfg::small().terms(1, max).recs(0)),
+        16 => gen::facts(GenCfg::small().terms(1, max).recs(4)),
+        16 => gen::facts(GenCfg::small().terms(2, max).recs(4).standard().with_flags(true).names(crate::gen::NameMode::Capped)),
+        // more than 30 ancestors (beyond the inline capacity of an id group): chains and fans only,
+        // the library's route enumeration is exponential in the number of alternative routes
+        1 => gen::facts(GenCfg::small().terms(32, 46).recs(2).shapes(&[1, 3, 1, 1])),
     ]
     .boxed()
 }
